@@ -147,7 +147,7 @@ def run1(tier, seed, replay=None):
         dec_cases = []
         for tool in ("redump", "3k3y"):
             kind = "redump" if tool == "redump" else "3k3y-enc"
-            shapes = [("ok", [[0, 3], [5, 7], [9, 12]], 12, True), ("ok2", [[0, 2], [4, 12]], 12, True),
+            shapes = [("ok", [[0, 3], [5, 7], [9, 12]], 12, True), ("ok2", [[0, 1], [4, 12]], 12, True),
                       ("ok-many", [[0, 3]] + [[3 * k + 2, 3 * k + 3] for k in range(1, 40)], 124, True),
                       ("badtable", [[0, 3], [2, 7]], 8, False), ("onecount", [[0, 8]], 8, False)]
             for sname, regions, sectors, ok in shapes:
